@@ -581,6 +581,87 @@ pub mod state {
     //@   props C18
     //@   ens[State::config.post] *r == self.cfg()
 
+        // =====================================================================================
+        // history lemmas over the contracts (pure proofs, no code): C01 / C08 / C09 / C19
+        // =====================================================================================
+        /// One accepted write on an active state: either the whole buffer was appended to the writer that was current,
+        /// or - only if the rotation criterion held - the writer was replaced by a fresh one that holds exactly the
+        /// buffer, and then the closed writer is left with exactly what it had (mount_next never writes).
+        proof fn lemma_write_step(old: &State, buf: Seq<u8>, new: &State) //@lemma C01,C08,C09
+            requires old.active(), State::write_post(old, buf, new, true), old.arith_ok(buf.len() as int),
+            ensures
+                new.active(),
+                new.w().written == old.w().written + buf || new.w().written == Seq::<u8>::empty() + buf,
+                // a cut only when the criterion held before the write (no early close)
+                !(new.w().written == old.w().written + buf) ==> old.should_rotate(),
+                // without the criterion nothing but the append happens: same writer, same path
+                !old.should_rotate() ==> new.w().written == old.w().written + buf && new.path() == old.path() && new.wsrc() == old.wsrc(),
+                // C08: size accounting
+                new.has_rot() && new.roll().has_size() ==> (new.roll().cur() == old.roll().cur() + buf.len() && new.w().written == old.w().written + buf)
+                    || (new.roll().cur() == buf.len() && old.should_rotate()),
+        {
+            let (s0, s1, rot_ok) = choose|s0: State, s1: State, rot_ok: bool| #![trigger State::mount_post(&s0, false, &s1, rot_ok)]
+                s0 == *old && State::mount_post(&s0, false, &s1, rot_ok) && State::append_post(&s1, buf, new, true);
+            assert(s0 == *old);
+        }
+        /// A failed write loses at most that write (C19): what was written before is still a prefix, the size account
+        /// is the one of the state the write was attempted on.
+        proof fn lemma_failed_write_step(old: &State, buf: Seq<u8>, new: &State) //@lemma C19,C01
+            requires old.active(), State::write_post(old, buf, new, false),
+            ensures
+                new.active(),
+                is_prefix(old.w().written, new.w().written) || is_prefix(Seq::<u8>::empty(), new.w().written),
+                !old.should_rotate() ==> is_prefix(old.w().written, new.w().written) && is_prefix(new.w().written, old.w().written + buf),
+        {
+            let (s0, s1, rot_ok) = choose|s0: State, s1: State, rot_ok: bool| #![trigger State::mount_post(&s0, false, &s1, rot_ok)]
+                s0 == *old && State::mount_post(&s0, false, &s1, rot_ok) && State::append_post(&s1, buf, new, false);
+            assert(s0 == *old);
+        }
+
+        /// the bytes accepted so far: initial content of the first writer plus every accepted buffer in order
+        pub open spec fn accepted(init: Seq<u8>, bufs: Seq<Seq<u8>>, n: int) -> Seq<u8>
+            decreases n
+        {
+            if n <= 0 { init } else { State::accepted(init, bufs, n - 1) + bufs[n - 1] }
+        }
+        /// the closed segments (writers that were replaced) concatenated, after n writes
+        pub open spec fn closed(states: Seq<State>, bufs: Seq<Seq<u8>>, n: int) -> Seq<u8>
+            decreases n
+        {
+            if n <= 0 { Seq::<u8>::empty() }
+            else if states[n].w().written == states[n - 1].w().written + bufs[n - 1] { State::closed(states, bufs, n - 1) }
+            else { State::closed(states, bufs, n - 1) + states[n - 1].w().written }
+        }
+        /// C01 (history): for every sequence of accepted writes, the closed segments followed by the current writer's
+        /// content are exactly the accepted buffers, each once and in order.
+        pub proof fn lemma_partition(states: Seq<State>, bufs: Seq<Seq<u8>>, n: int) //@lemma C01
+            requires
+                0 <= n <= bufs.len(), states.len() == bufs.len() + 1, states[0].active(),
+                forall|i: int| 0 <= i < bufs.len() ==> #[trigger] State::write_post(&states[i], bufs[i], &states[i + 1], true),
+                forall|i: int| 0 <= i < bufs.len() ==> (#[trigger] states[i]).arith_ok(bufs[i].len() as int),
+            ensures
+                states[n].active(),
+                State::closed(states, bufs, n) + states[n].w().written == State::accepted(states[0].w().written, bufs, n),
+            decreases n
+        {
+            if n > 0 {
+                State::lemma_partition(states, bufs, n - 1);
+                assert(State::write_post(&states[n - 1], bufs[n - 1], &states[n - 1 + 1], true));
+                State::lemma_write_step(&states[n - 1], bufs[n - 1], &states[n]);
+                let c = State::closed(states, bufs, n - 1);
+                let w0 = states[n - 1].w().written;
+                let b = bufs[n - 1];
+                if states[n].w().written == w0 + b {
+                    assert(c + (w0 + b) =~= (c + w0) + b);
+                } else {
+                    assert(states[n].w().written == Seq::<u8>::empty() + b);
+                    assert((c + w0) + (Seq::<u8>::empty() + b) =~= (c + w0) + b);
+                }
+            } else {
+                assert(Seq::<u8>::empty() + states[0].w().written =~= states[0].w().written);
+            }
+        }
+
     //@ fn src/writers/file_log_writer/state.rs impl State / fn flush
     //@   ret r
     //@   props C04
